@@ -1109,6 +1109,24 @@ impl Drop for IsoPool {
 pub fn child_loop(sub: &str, replay: fn(&str, Value) -> Option<CaseResult>) -> i32 {
     let stdin = std::io::stdin();
     let stdout = std::io::stdout();
+    // A thread of the code under test that dies (panics) usually leaves its caller blocked for
+    // ever. The watchdog turns "a foreign panic was recorded and the case did not finish within
+    // 3 s" into a failure answer and ends this child.
+    static CASE_STARTED: Mutex<Option<Instant>> = Mutex::new(None);
+    std::thread::spawn(|| loop {
+        std::thread::sleep(Duration::from_millis(200));
+        let started = *CASE_STARTED.lock().unwrap();
+        if let (Some(t0), Some((loc, msg))) = (started, peek_foreign_panic()) {
+            if t0.elapsed() > Duration::from_secs(3) {
+                let ans = json!({"fail": {"signature": format!("panic@thread:{}", loc), "msg": format!("a thread of the code under test panicked at {} ({}) and the operation never returned", loc, msg)}});
+                let out = std::io::stdout();
+                let mut o = out.lock();
+                let _ = writeln!(o, "{}", ans);
+                let _ = o.flush();
+                std::process::exit(3);
+            }
+        }
+    });
     for line in stdin.lock().lines() {
         let line = match line {
             Ok(l) => l,
@@ -1126,7 +1144,15 @@ pub fn child_loop(sub: &str, replay: fn(&str, Value) -> Option<CaseResult>) -> i
                 continue;
             }
         };
+        let _ = take_foreign_panic();
+        *CASE_STARTED.lock().unwrap() = Some(Instant::now());
         let r = replay(sub, v).unwrap_or_else(|| Err(Fail::new("harness-protocol", format!("unknown sub-check {}", sub))));
+        *CASE_STARTED.lock().unwrap() = None;
+        // a panic on a foreign thread that did not block the caller is still a failure
+        let r = match (r, take_foreign_panic()) {
+            (Ok(_), Some((loc, msg))) => Err(Fail::new(format!("panic@thread:{}", loc), format!("a thread of the code under test panicked at {}: {}", loc, msg))),
+            (r, _) => r,
+        };
         let ans = match r {
             Ok(ok) => json!({"ok": {"nontrivial": ok.nontrivial, "labels": ok.labels}}),
             Err(f) => json!({"fail": {"signature": f.signature, "msg": f.msg}}),
